@@ -1332,3 +1332,358 @@ func ruleLexUnquotedEnd(c *Ctx) []Obligation {
 	}
 	return obs
 }
+
+// ---------------------------------------------------------------- ID.REFRESTRICT (hunt/h5/C11)
+
+func init() {
+	register(&Rule{Name: "ID.REFRESTRICT", Props: []string{"C11", "C04"}, Floor: 1,
+		Doc: "a base statement on a type that is derived from an identityref typedef is reported (RFC 7950 9.10.1: an identityref cannot be restricted), not dropped: on the path that keeps the typedef's base, a base of the type's own leads to an error",
+		Run: ruleIDRefRestrict})
+}
+
+func ruleIDRefRestrict(c *Ctx) []Obligation {
+	const R = "ID.REFRESTRICT"
+	res := c.Fn("yang.(*Type).resolve")
+	typeT := c.Named("yang", "Type")
+	if res == nil || typeT == nil {
+		return []Obligation{undecided(R, "type resolver", "-", "(*Type).resolve / Type not found")}
+	}
+	fBase := FieldVar(typeT, "IdentityBase")
+	con := "Type.resolve: a base written on a type derived from an identityref is reported"
+	if fBase == nil {
+		return []Obligation{undecided(R, con, "-", "Type.IdentityBase not found")}
+	}
+	// the comparison of the source of the type with "builtin": on its not-builtin side the typedef's base is kept
+	var obs []Obligation
+	found := false
+	c.eachInstrDeep(res, func(in ssa.Instruction) {
+		bo, isB := in.(*ssa.BinOp)
+		if !isB || bo.Op != token.NEQ && bo.Op != token.EQL || found {
+			return
+		}
+		s1, is1 := constString(bo.X)
+		s2, is2 := constString(bo.Y)
+		if !(is1 && s1 == "builtin") && !(is2 && s2 == "builtin") {
+			return
+		}
+		// only the test that stands in the identityref arm: some block it guards (or the arm after it) loads
+		// Type.IdentityBase of the receiver
+		for _, r := range refsOf(bo) {
+			ifi, isIf := r.(*ssa.If)
+			if !isIf {
+				continue
+			}
+			derived := ifi.Block().Succs[0]
+			builtin := ifi.Block().Succs[1]
+			if bo.Op == token.EQL {
+				derived, builtin = builtin, derived
+			}
+			readsBase := func(b *ssa.BasicBlock) *ssa.BinOp {
+				var t *ssa.BinOp
+				seen := map[*ssa.BasicBlock]bool{}
+				stack := []*ssa.BasicBlock{b}
+				for len(stack) > 0 && t == nil {
+					x := stack[len(stack)-1]
+					stack = stack[:len(stack)-1]
+					if seen[x] || !b.Dominates(x) {
+						continue
+					}
+					seen[x] = true
+					for _, in2 := range x.Instrs {
+						if nb, isNB := in2.(*ssa.BinOp); isNB {
+							if v, _, okn := nilTest(nb); okn {
+								if _, f, _ := loadedField(v); f == fBase {
+									t = nb
+								}
+							}
+						}
+					}
+					stack = append(stack, x.Succs...)
+				}
+				return t
+			}
+			if readsBase(builtin) == nil {
+				continue // not the identityref arm
+			}
+			found = true
+			nb := readsBase(derived)
+			if nb == nil {
+				obs = append(obs, bad(R, con, c.InstrPos(bo), "on the side where the type is not the built-in identityref the type's own base is never looked at: `type r { base y; }` on a leaf keeps the base of r, and `base nope` — defined nowhere — goes unreported"))
+				return
+			}
+			_, isEq, _ := nilTest(nb)
+			made := false
+			for _, rr := range refsOf(nb) {
+				if i2, isI := rr.(*ssa.If); isI {
+					nonNil := i2.Block().Succs[0]
+					if isEq {
+						nonNil = i2.Block().Succs[1]
+					}
+					if errorMadeUnder(nonNil, nil) {
+						made = true
+					}
+				}
+			}
+			if made {
+				obs = append(obs, ok(R, con, c.InstrPos(nb), "under `source != builtin`, a base of the type's own makes an error"))
+			} else {
+				obs = append(obs, bad(R, con, c.InstrPos(nb), "the base is looked at but no error is made when it is there"))
+			}
+		}
+	})
+	if !found {
+		return []Obligation{undecided(R, con, c.Pos(res.Pos()), "no test of the type's source against \"builtin\" in front of the identityref base handling")}
+	}
+	return obs
+}
+
+// ---------------------------------------------------------------- NAME.EMPTYPREFIX (hunt/h5/C11/finding3)
+
+func init() {
+	register(&Rule{Name: "NAME.EMPTYPREFIX", Props: []string{"C11", "C09"}, Floor: 2,
+		Doc: "a reference written with an empty prefix (`:name`) refers to nothing: the functions that split a base or a type name at its colon test for the leading colon and report it, before the empty prefix can be read as `no prefix`",
+		Run: ruleNameEmptyPrefix})
+}
+
+func ruleNameEmptyPrefix(c *Ctx) []Obligation {
+	const R = "NAME.EMPTYPREFIX"
+	gp := c.Fn("yang.getPrefix")
+	if gp == nil {
+		return []Obligation{undecided(R, "prefix splitter", "-", "getPrefix not found")}
+	}
+	var obs []Obligation
+	for _, site := range []struct{ fn, what string }{
+		{"yang.(*Module).findIdentityBase", "the base of an identity or identityref"},
+		{"yang.(*Type).resolve", "the name of a type"},
+	} {
+		fn := c.Fn(site.fn)
+		con := fmt.Sprintf("%s with an empty prefix is reported", site.what)
+		if fn == nil {
+			obs = append(obs, undecided(R, con, "-", site.fn+" not found"))
+			continue
+		}
+		calls := c.callsToDeep(fn, gp)
+		if len(calls) == 0 {
+			obs = append(obs, undecided(R, con, c.Pos(fn.Pos()), "the name is not split with getPrefix here"))
+			continue
+		}
+		arg := calls[0].Common().Args[0]
+		// a test HasPrefix(<the same text>, ":") whose true side makes an error and does not reach the lookups
+		okk := false
+		at := c.InstrPos(calls[0].(ssa.Instruction))
+		c.eachInstrDeep(fn, func(in ssa.Instruction) {
+			call, isC := in.(*ssa.Call)
+			if !isC || !calleeIs(call, "strings", "HasPrefix") || len(call.Call.Args) != 2 || okk {
+				return
+			}
+			if s, isK := constString(call.Call.Args[1]); !isK || s != ":" {
+				return
+			}
+			if !sameExpr(call.Call.Args[0], arg) && !sameObject(call.Call.Args[0], arg) {
+				return
+			}
+			for _, r := range refsOf(call) {
+				if ifi, isIf := r.(*ssa.If); isIf {
+					if errorMadeUnder(ifi.Block().Succs[0], nil) {
+						okk = true
+						at = c.InstrPos(call)
+					}
+				}
+			}
+		})
+		if okk {
+			obs = append(obs, ok(R, con, at, "HasPrefix(text, \":\") leads to an error"))
+		} else {
+			obs = append(obs, bad(R, con, at, "the text is split at its first colon and an empty first part is read as `no prefix`: `:ok` names the local ok — `identity d { base \":ok\"; }` and `type \":t\"` are accepted"))
+		}
+	}
+	return obs
+}
+
+// ---------------------------------------------------------------- IMPORT.PREFIXUNIQUE (hunt/h5/C09/finding3)
+
+func init() {
+	register(&Rule{Name: "IMPORT.PREFIXUNIQUE", Props: []string{"C09", "C13"}, Floor: 1,
+		Doc: "the linker files the prefix of every import of a module in a set that is asked first, and a prefix that is already there (another import's, or the module's own) is an error: what a prefix stands for does not depend on the order of the import statements",
+		Run: ruleImportPrefixUnique})
+}
+
+func ruleImportPrefixUnique(c *Ctx) []Obligation {
+	const R = "IMPORT.PREFIXUNIQUE"
+	inc := c.Fn("yang.(*Modules).include")
+	impT := c.Named("yang", "Import")
+	valT := c.Named("yang", "Value")
+	con := "linking a module: a prefix declared twice is reported"
+	if inc == nil || impT == nil || valT == nil {
+		return []Obligation{undecided(R, con, "-", "(*Modules).include / Import / Value not found")}
+	}
+	fPrefix, fName := FieldVar(impT, "Prefix"), FieldVar(valT, "Name")
+	// a map update keyed by Import.Prefix.Name, preceded by a lookup under the same key whose found side returns an
+	// error
+	var filed *ssa.MapUpdate
+	c.eachInstrDeep(inc, func(in ssa.Instruction) {
+		mu, isMU := in.(*ssa.MapUpdate)
+		if !isMU || filed != nil {
+			return
+		}
+		if _, f, base := loadedField(mu.Key); f == fName && base != nil {
+			if _, f2, _ := loadedField(base); f2 == fPrefix {
+				filed = mu
+			}
+		}
+	})
+	if filed == nil {
+		return []Obligation{bad(R, con, c.Pos(inc.Pos()), "the prefixes of the imports are not collected anywhere while the module is linked: `import x { prefix p; } import y { prefix p; }` is accepted, `p:t` means x's t or y's according to which import is written first, and a name only the other defines is unknown")}
+	}
+	reported := false
+	c.eachInstrDeep(inc, func(in ssa.Instruction) {
+		lk, isL := in.(*ssa.Lookup)
+		if !isL || !lk.CommaOk || reported || !sameObject(lk.X, filed.Map) || !sameExpr(lk.Index, filed.Key) && !sameObject(lk.Index, filed.Key) {
+			return
+		}
+		if !dominates(lk, filed) {
+			return
+		}
+		for _, r := range refsOf(lk) {
+			ex, isE := r.(*ssa.Extract)
+			if !isE || ex.Index != 1 {
+				continue
+			}
+			for _, rr := range refsOf(ex) {
+				if ifi, isIf := rr.(*ssa.If); isIf && blockReturnsError(ifi.Block().Succs[0]) {
+					reported = true
+				}
+			}
+		}
+	})
+	if !reported {
+		return []Obligation{bad(R, con, c.InstrPos(filed), "the prefixes are collected but a prefix that is already there does not lead to an error return")}
+	}
+	// the module's own prefix is in the set before the imports are looked at
+	own := false
+	c.eachInstrDeep(inc, func(in ssa.Instruction) {
+		mu, isMU := in.(*ssa.MapUpdate)
+		if !isMU || mu == filed || !sameObject(mu.Map, filed.Map) {
+			return
+		}
+		if dominates(mu, filed) || blockReaches(mu.Block(), filed.Block(), nil) {
+			own = true
+		}
+	})
+	if own {
+		return []Obligation{ok(R, con, c.InstrPos(filed), "each import's prefix is looked up in the set of prefixes seen (which starts with the module's own) and a hit returns an error")}
+	}
+	return []Obligation{ok(R, con, c.InstrPos(filed), "each import's prefix is looked up in the set of prefixes seen and a hit returns an error (the module's own prefix is not in the set)")}
+}
+
+// ---------------------------------------------------------------- LINK.ROOTS (hunt/h5/C18/finding1)
+
+func init() {
+	register(&Rule{Name: "LINK.ROOTS", Props: []string{"C18", "C05"}, Floor: 1,
+		Doc: "the linking passes of a Process run are repeated until one loads nothing, and each pass links from the modules that are loaded when it starts — the list is taken inside the repetition, not once in front of it — so that a module fetched by one pass is a starting point of the next, as it is of the next run",
+		Run: ruleLinkRoots})
+}
+
+func ruleLinkRoots(c *Ctx) []Obligation {
+	const R = "LINK.ROOTS"
+	proc := c.Fn("yang.(*Modules).process")
+	inc := c.Fn("yang.(*Modules).include")
+	con := "process: each linking pass starts from the modules loaded when the pass begins"
+	if proc == nil || inc == nil {
+		return []Obligation{undecided(R, con, "-", "(*Modules).process / include not found")}
+	}
+	calls := c.callsToDeep(proc, inc)
+	if len(calls) == 0 {
+		return []Obligation{undecided(R, con, c.Pos(proc.Pos()), "the linker is not called from process")}
+	}
+	var obs []Obligation
+	for _, ci := range calls {
+		site := liftTo(ci.(ssa.Instruction), proc)
+		if site == nil {
+			site = ci.(ssa.Instruction)
+		}
+		inner := loopHeaderOf(site.Block())
+		if inner == nil {
+			obs = append(obs, undecided(R, con, c.InstrPos(site), "the linker is not called in a loop over modules"))
+			continue
+		}
+		// the repetition around the pass
+		var outer *ssa.BasicBlock
+		if id := inner.Idom(); id != nil {
+			outer = loopHeaderOf(id)
+		}
+		if outer == nil {
+			obs = append(obs, bad(R, con, c.InstrPos(site), "the linking pass is not repeated: what a pass loads from the search path is never linked from in this run"))
+			continue
+		}
+		// what the inner loop ranges over: the slice indexed (or the map ranged) whose element is handed to the linker
+		arg := ci.Common().Args[len(ci.Common().Args)-1]
+		var list ssa.Value
+		operandClosure(arg, func(x ssa.Value) {
+			switch y := x.(type) {
+			case *ssa.IndexAddr:
+				if list == nil {
+					list = y.X
+				}
+			case *ssa.Next:
+				if r, isR := y.Iter.(*ssa.Range); isR && list == nil {
+					list = r.X
+				}
+			}
+		})
+		if ld, isL := arg.(*ssa.UnOp); isL {
+			if ia, isIA := ld.X.(*ssa.IndexAddr); isIA {
+				list = ia.X
+			}
+		}
+		if list == nil {
+			obs = append(obs, undecided(R, con, c.InstrPos(site), "what the pass ranges over is not followed"))
+			continue
+		}
+		// where the list is made: through phis at the loop headers back to the instruction that computes it
+		inside, outside := false, false
+		seen := map[ssa.Value]bool{}
+		var walk func(v ssa.Value)
+		walk = func(v ssa.Value) {
+			if seen[v] {
+				return
+			}
+			seen[v] = true
+			switch x := v.(type) {
+			case *ssa.Phi:
+				for _, e := range x.Edges {
+					walk(e)
+				}
+			case ssa.Instruction:
+				b := x.Block()
+				if b == outer || loopHeaderOf(b) == outer || func() bool {
+					for h := loopHeaderOf(b); h != nil; {
+						if h == outer {
+							return true
+						}
+						id := h.Idom()
+						if id == nil {
+							return false
+						}
+						h = loopHeaderOf(id)
+					}
+					return false
+				}() {
+					inside = true
+				} else {
+					outside = true
+				}
+			default:
+				outside = true
+			}
+		}
+		walk(list)
+		switch {
+		case inside && !outside:
+			obs = append(obs, ok(R, con, c.InstrPos(site), "the list the pass ranges over is computed inside the repetition"))
+		default:
+			obs = append(obs, bad(R, con, c.InstrPos(site), "the list of modules to link from is taken once, in front of the repeated passes: a module that a pass fetches from the search path is no starting point in this run but is one in the next — `import aa; import q;` with aa on the path importing a missing w reports only w the first time and q and w the second"))
+		}
+	}
+	return obs
+}
